@@ -39,6 +39,10 @@ int c_eckhardt(int nval, int timestep_type,
     if(BFI_max <0 || BFI_max > 1)
         return EDOM;
 
+    /* Nothing to filter */
+    if(nval < 1)
+        return 0;
+
     /* Time step duration in hours */
     timestep_length = timestep_type == 0 ? 1 : 24;
 
